@@ -47,6 +47,8 @@ def main(ctx):
     # ZNCC: structure for all images (shape, type of measure, NaN pattern, finite elsewhere); the value only at pinned image pairs; band selection relationally
     J.append({'mod': MOD, 'fn': 'zncc_volume', 'mode': 'sym', 'args': dict(H=3, W=4, dmin=-1, dmax=1, cap=cap)})
     J.append({'mod': MOD, 'fn': 'zncc_bands', 'mode': 'sym', 'args': dict(H=3, W=4, dmin=-1, dmax=0, cap=cap)})
+    # the window statistics of zncc are accumulated in double precision (bit-precise float harness)
+    J.append({'mod': MOD, 'fn': 'mean_raster_fp', 'mode': 'sym', 'args': dict(H=2, W=1, win=1, cap=cap)})
     if not ctx.quick:
         J.append({'mod': MOD, 'fn': 'zncc_bands', 'mode': 'sym', 'args': dict(H=3, W=4, dmin=0, dmax=1, subpix=2, cap=cap)})
         J.append({'mod': MOD, 'fn': 'zncc_volume', 'mode': 'sym', 'args': dict(H=3, W=5, dmin=-2, dmax=1, cap=cap)})
